@@ -1,19 +1,211 @@
-/- T2N.Spec.SpellDe — STUB (to be replaced by the specification of de spellings) -/
+/-
+  T2N.Spec.SpellDe — German spellings: cardinals below 10^12 with their accepted variants,
+  ordinals (five declension endings), decimals, digit dictation. Written from German orthography
+  (Duden) and the repository's module doc / tests (src/lang/de/mod.rs).
+
+  Everything is spelled in lower case (the library lowercases; case-insensitivity is a separate
+  property). Numbers below one million are ONE word (`dreiundfünfzigtausendzweihundertvier`);
+  `million(en)` / `milliarde(n)` are separate nouns, plural whenever the multiplier is not 1
+  (number agreement is grammar, not a free choice: `eine million`, `zwei millionen`,
+  `hundertein millionen`).
+
+  A spelling is built as a list of *atoms* (`ein`, `und`, `zwanzig`, `hundert`, `tausend`, …), each
+  with the strength of the boundary that follows it; the global split level decides which boundaries
+  are written as spaces:
+      boundary 0 : always a space (around million / milliarde)
+      boundary 1 : around `tausend`
+      boundary 2 : around `hundert`
+      boundary 3 : around the `und` of `einundzwanzig`
+      boundary 9 : never a space
+  level L writes a space at every boundary ≤ L, so a lower-level boundary is never cut without
+  the higher ones (module doc: "ein und zwanzig" is treated like "einundzwanzig"; tests:
+  `zwei tausend ein und zwanzig`, `ein hundert fünfzehn`, `einhundert fünfzehn`).
+
+  Variant axes (cp g j: g = group 0 units … 3 = 10^9; independent per group unless `cp 0`):
+    * `dreißig` | `dreissig`                                                       (cp g 0)
+    * `zwei` | `zwo` as unit of the tens-unit part (`zwoundzwanzig`, `zwo`)        (cp g 1)
+    * `zwei` | `zwo` as multiplier of `hundert` (`zwohundert`)                     (cp g 2)
+    * optional `und` after `hundert` when the rest has no `und` of its own
+      (`hundertundeins`, `einhundert und drei`; boundary 2 on both sides)          (cp g 3)
+    * leading `ein` before `hundert` present | absent, only when nothing precedes  (cp g 4)
+    * g = 1: leading `ein` before `tausend` present | absent, only when nothing precedes;
+      g = 2, 3: multiplier 1 spelled `eine` (standard feminine) | `ein`            (cp g 5)
+    * global split level 0 (compound) | 1 | 2 | 3                                  (cp 0 7)
+    * at level ≥ 2: multiplier stays glued to `hundert` (`einhundert fünfzehn`)    (cp g 8)
+    * g = 1, at level 1: multiplier stays glued to `tausend`
+      (`dreiundfünfzigtausend zweihundertvier`)                                    (cp 1 9)
+    * ordinals only: `siebte` | `siebente`                                         (cp 0 10)
+    * ordinals only, rank 10^6: `millionste` | `einmillionste`                     (cp 0 11)
+  `eins` is used only for a final 1 that is the whole tens-unit part of the units group (`eins`,
+  `hunderteins`, `tausendeins`); everywhere else `ein` (`einundzwanzig`, `einhundert`, `eintausend`,
+  `hundertein millionen`).
+
+  Not included (kept simple / not standard): counting in hundreds (`neunzehnhundert…`), `und` after
+  `tausend` (`tausendundeins`), colloquial `zwote`, ASCII transliterations (`fuenf`, `zwoelf`).
+  No value had to be removed from an axis because the library rejects it (no kind-2 removals).
+
+  Standard spellings kept although the library (text2num-rs) mishandles them — findings:
+    * `eine million` / `eine milliarde` (cp 2 5 / cp 3 5 = 0, the standard form): `eine` is not
+      recognised (text2digits: NaN; in a sentence `eine 1000000`); `ein million` is accepted.
+    * `siebente` (cp 0 10 = 1; Duden lists `siebte` and `siebente`): not recognised (NaN).
+    * not a spelling issue, seen with `conj`: `null und drei` is rewritten to `03` (the `und` is lost).
+-/
 import T2N.Spec.Basic
+
+namespace T2N.Spec.De
+
+/-- a component of a compound, with the strength of the boundary after it -/
+structure Atom where
+  w : Word
+  b : Nat
+
+/-- write the atoms at split level `L`: a space at every boundary `≤ L` -/
+def render (L : Nat) : List Atom → Word → List Word
+  | [], cur => if cur.isEmpty then [] else [cur]
+  | a :: rest, cur =>
+    if a.b ≤ L then (cur ++ a.w) :: render L rest [] else render L rest (cur ++ a.w)
+
+/-- set the boundary after the last atom -/
+def setLastB (b : Nat) : List Atom → List Atom
+  | [] => []
+  | [a] => [{ a with b := b }]
+  | a :: rest => a :: setLastB b rest
+
+def unitWords : List Word := [w!"null", w!"ein", w!"zwei", w!"drei", w!"vier", w!"fünf", w!"sechs", w!"sieben",
+  w!"acht", w!"neun", w!"zehn", w!"elf", w!"zwölf", w!"dreizehn", w!"vierzehn", w!"fünfzehn", w!"sechzehn",
+  w!"siebzehn", w!"achtzehn", w!"neunzehn"]
+
+def tensWords : List Word := [[], [], w!"zwanzig", w!"dreißig", w!"vierzig", w!"fünfzig", w!"sechzig", w!"siebzig",
+  w!"achtzig", w!"neunzig"]
+
+/-- unit word; `one` is the form of 1 in this position, `zwo` selects the variant of 2 -/
+def unitWord (one : Word) (zwo : Bool) (n : Nat) : Word :=
+  if n == 1 then one else if n == 2 && zwo then w!"zwo" else unitWords.getD n []
+
+def tensWord (v : Var) (g t : Nat) : Word :=
+  if t == 3 && flag v (cp g 0) then w!"dreissig" else tensWords.getD t []
+
+/-- 1..99; `one` is the spelling of a lone 1 (`eins` | `ein` | `eine`); boundaries inside are 3 -/
+def below100 (v : Var) (g n : Nat) (one : Word) : List Atom :=
+  let zwo := flag v (cp g 1)
+  if n < 20 then [⟨unitWord one zwo n, 3⟩]
+  else
+    let t := n / 10
+    let u := n % 10
+    if u == 0 then [⟨tensWord v g t, 3⟩]
+    else [⟨unitWord w!"ein" zwo u, 3⟩, ⟨w!"und", 3⟩, ⟨tensWord v g t, 3⟩]
+
+/-- 1..999; `first` = nothing precedes this group in the number (only then may the leading `ein`
+of `einhundert` be dropped); the boundary after the group is left at 3 (set by the caller) -/
+def group (v : Var) (g n : Nat) (first : Bool) (one : Word) : List Atom :=
+  let h := n / 100
+  let r := n % 100
+  let hs : List Atom :=
+    if h == 0 then []
+    else if h == 1 && first && flag v (cp g 4) then [⟨w!"hundert", 2⟩]
+    else [⟨unitWord w!"ein" (flag v (cp g 2)) h, if flag v (cp g 8) then 9 else 2⟩, ⟨w!"hundert", 2⟩]
+  let link : List Atom :=
+    if h != 0 && r != 0 && (r < 20 || r % 10 == 0) && flag v (cp g 3) then [⟨w!"und", 2⟩] else []
+  hs ++ link ++ (if r == 0 then [] else below100 v g r one)
+
+/-- group `g ≥ 1` followed by its scale word; `first`: no higher group was spelled -/
+def scaled (v : Var) (g n : Nat) (first : Bool) : List Atom :=
+  if n == 0 then []
+  else if g == 1 then
+    if n == 1 && first && flag v (cp g 5) then [⟨w!"tausend", 1⟩]
+    else setLastB (if flag v (cp g 9) then 2 else 1) (group v g n first w!"ein") ++ [⟨w!"tausend", 1⟩]
+  else
+    let sg : Word := if g == 2 then w!"million" else w!"milliarde"
+    let pl : Word := if g == 2 then w!"millionen" else w!"milliarden"
+    if n == 1 then [⟨if flag v (cp g 5) then w!"ein" else w!"eine", 0⟩, ⟨sg, 0⟩]
+    else setLastB 0 (group v g n first w!"ein") ++ [⟨pl, 0⟩]
+
+/-- atoms of the cardinal `0 < n < 10^12` -/
+def cardinalAtoms (v : Var) (n : Nat) : List Atom :=
+  let g3 := n / 1000000000 % 1000
+  let g2 := n / 1000000 % 1000
+  let g1 := n / 1000 % 1000
+  let g0 := n % 1000
+  let p3 := scaled v 3 g3 true
+  let p2 := scaled v 2 g2 (g3 == 0)
+  let p1 := scaled v 1 g1 (g3 == 0 && g2 == 0)
+  let hi := p3 ++ p2 ++ p1
+  hi ++ (if g0 == 0 then [] else group v 0 g0 hi.isEmpty w!"eins")
+
+/-- global split level -/
+def level (v : Var) : Nat := pick v (cp 0 7) 4
+
+/-- cardinal, `n < 10^12` -/
+def cardinal (v : Var) (n : Nat) : List Word :=
+  if n == 0 then [w!"null"] else render (level v) (cardinalAtoms v n) []
+
+/-! ### ordinals -/
+
+/-- ordinal stems 1..19 (without the declension ending) -/
+def ordUnitStems : List Word := [[], w!"erst", w!"zweit", w!"dritt", w!"viert", w!"fünft", w!"sechst", w!"siebt",
+  w!"acht", w!"neunt", w!"zehnt", w!"elft", w!"zwölft", w!"dreizehnt", w!"vierzehnt", w!"fünfzehnt", w!"sechzehnt",
+  w!"siebzehnt", w!"achtzehnt", w!"neunzehnt"]
+
+/-- declension endings: -e, -er, -es, -en, -em -/
+def inflEndings : List Word := [w!"e", w!"er", w!"es", w!"en", w!"em"]
+
+/-- make the last atom ordinal: `r` = tens-unit part of the units group (0: the last atom is
+`hundert` / `tausend`; < 20: a unit word; otherwise a tens word) -/
+def ordLast (v : Var) (r : Nat) (ending : Word) : List Atom → List Atom
+  | [] => []
+  | [a] =>
+    let stem : Word :=
+      if r == 0 || r ≥ 20 then a.w ++ w!"st"
+      else if r == 7 && flag v (cp 0 10) then w!"siebent"
+      else ordUnitStems.getD r a.w
+    [{ a with w := stem ++ ending }]
+  | a :: rest => a :: ordLast v r ending rest
+
+/-- ordinal of rank `1 ≤ n ≤ 10^6` with declension ending `ending`: the cardinal whose last
+component is made ordinal (`zwei` is never `zwo` there: `zweite`) -/
+def ordinal (v : Var) (n : Nat) (ending : Word) : List Word :=
+  if n == 1000000 then
+    [(if flag v (cp 0 11) then w!"ein" else []) ++ w!"millionst" ++ ending]
+  else
+    let r := n % 100
+    let v' : Var := fun i => if i == cp 0 1 && r == 2 then 0 else v i
+    render (level v) (ordLast v r ending (cardinalAtoms v' n)) []
+
+/-! ### decimals and dictation -/
+
+def sepWord : Word := w!"komma"
+def decMark : Char := ','
+
+/-- dictation word of a digit (1 is `eins`) -/
+def digitWord (d : Nat) : Word := unitWord w!"eins" false d
+
+/-- fraction digits spoken one by one -/
+def fraction (_v : Var) (ds : List Nat) : List Word := ds.map digitWord
+
+def zeroWord : Word := w!"null"
+
+/-- the conjunction that may stand between two numbers -/
+def conj : Word := w!"und"
+
+end T2N.Spec.De
 
 namespace T2N.Spec.De
 
 def speller : Speller where
   code := "de"
-  cardinal := fun _ _ => []
-  nInfl := 0
-  ordMax := 0
-  ordinal := fun _ _ _ => none
-  sepWord := []
-  decMark := ','
-  fraction := fun _ _ => []
-  zeroWord := []
-  digitWord := fun _ => []
-  conj := []
+  cardinal := cardinal
+  nInfl := 5
+  ordMax := 1000000
+  ordinal := fun v n i =>
+    if n == 0 || n > 1000000 then none
+    else match inflEndings[i]? with
+      | some e => some (ordinal v n e, w!".")
+      | none => none
+  sepWord := sepWord
+  decMark := decMark
+  fraction := fraction
+  zeroWord := zeroWord
+  digitWord := digitWord
+  conj := conj
 
 end T2N.Spec.De
